@@ -296,6 +296,7 @@ func (c *workceptorCommand) ControlFunc(ctx context.Context, nc controlsvc.Netce
 		if err != nil {
 			return nil, err
 		}
+		verifCrashPoint("submit.after_stdin_create")
 		worker.UpdateBasicStatus(WorkStatePending, "Waiting for Input Data", 0)
 		err = cfo.ReadFromConn(fmt.Sprintf("Work unit created with ID %s. Send stdin data and EOF.\n", worker.ID()), stdin, &controlsvc.SocketConnIO{})
 		if err != nil {
@@ -309,6 +310,7 @@ func (c *workceptorCommand) ControlFunc(ctx context.Context, nc controlsvc.Netce
 
 			return nil, err
 		}
+		verifCrashPoint("submit.after_input")
 		worker.UpdateBasicStatus(WorkStatePending, "Starting Worker", 0)
 		err = worker.Start()
 		if err != nil && !IsPending(err) {
@@ -316,6 +318,7 @@ func (c *workceptorCommand) ControlFunc(ctx context.Context, nc controlsvc.Netce
 
 			return cfr, err
 		}
+		verifCrashPoint("submit.after_start")
 		if IsPending(err) {
 			cfr["result"] = "Job Submitted"
 		} else {
